@@ -362,12 +362,22 @@ class TokenizerAnalysis:
         # frame list = list field that receives the frame read in the loop
         frame_lists = set()
         for mn in reach:
+            # locals of the method that alias a list field (data = self._data): an append through the alias is an append to the field
+            alias = {}
+            for n in ast.walk(I.methods[mn]):
+                if isinstance(n, ast.Assign) and isinstance(n.value, ast.Attribute) and isinstance(n.value.value, ast.Name) and n.value.value.id == 'self' and n.value.attr in listf:
+                    for t_ in n.targets:
+                        if isinstance(t_, ast.Name):
+                            alias[t_.id] = n.value.attr
             for n in ast.walk(I.methods[mn]):
                 if isinstance(n, ast.Call) and isinstance(n.func, ast.Attribute) and n.func.attr == 'append' \
                         and isinstance(n.func.value, ast.Attribute) and isinstance(n.func.value.value, ast.Name) \
                         and n.func.value.value.id == 'self' and n.func.value.attr in listf \
                         and len(n.args) == 1 and not isinstance(n.args[0], ast.Tuple):
                     frame_lists.add(n.func.value.attr)
+                elif isinstance(n, ast.Call) and isinstance(n.func, ast.Attribute) and n.func.attr == 'append' and isinstance(n.func.value, ast.Name) and n.func.value.id in alias \
+                        and len(n.args) == 1 and not isinstance(n.args[0], ast.Tuple):
+                    frame_lists.add(alias[n.func.value.id])
         # the one whose object is yielded as first component: decided dynamically; statically keep the appended ones
         tok_lists = [f for f in frame_lists]
         if len(tok_lists) != 1:
